@@ -1012,8 +1012,12 @@ def flatten(x:Tensor, start_dim:int=0, end_dim:int=-1) -> 'Tensor':
         raise TypeError(f"Expected x to be a Tensor but got {type(x)}")
     
     shape = x.shape
-    start = start_dim if start_dim != -1 else len(shape)
-    end = end_dim if end_dim != -1 else len(shape)
+    ndim = len(shape) if len(shape) > 0 else 1
+    for d in (start_dim, end_dim):
+        if not -ndim <= d < ndim:
+            raise IndexError(f"Dimension out of range (expected to be in range of [{-ndim}, {ndim-1}], but got {d})")
+    start = start_dim % ndim
+    end = end_dim % ndim
     if start > end:
         raise RuntimeError("flatten() has invalid args: start_dim cannot come after end_dim")
     if start < end:
